@@ -31,7 +31,9 @@ impl Drop for Big {
 
 #[derive(Clone, Debug, PartialEq, Eq, Serialize, Deserialize)]
 pub struct ScaleCase {
-    /// 0 ring, 1 ring with chords, 2 clique, 3 ring with self-adoptions and chords
+    /// 0 ring, 1 ring with chords, 2 clique, 3 ring with self-adoptions and chords,
+    /// 4 hub adopting n-1 spokes (zero-count-with-adoptions teardown of the hub),
+    /// 5 two objects with n parallel adoptions and n unadopt/adopt churn rounds
     pub shape: u8,
     /// size selector, mapped log-uniformly onto [2, max_n(tier, shape)]
     pub size: u16,
@@ -55,7 +57,7 @@ fn max_n(tier: Tier, shape: u8) -> f64 {
 }
 
 pub fn n_of(c: &ScaleCase, tier: Tier) -> usize {
-    let mx = max_n(tier, c.shape % 4);
+    let mx = max_n(tier, c.shape % 6);
     let f = c.size as f64 / 65535.0;
     let n = (2.0f64.ln() + f * (mx.ln() - 2.0f64.ln())).exp();
     (n.round() as usize).max(2)
@@ -74,7 +76,39 @@ unsafe fn build(c: &ScaleCase, n: usize) -> (Box<Rc<Big>>, usize, usize) {
     slot[0] = &*h0 as *const Rc<Big>;
     let mut pairs = std::collections::HashSet::new();
     let mut adoptions = 0usize;
-    let shape = c.shape % 4;
+    let shape = c.shape % 6;
+    if shape == 4 {
+        // hub 0 owns and adopts n-1 spokes (moved handles)
+        let h0r: &Rc<Big> = &*slot[0];
+        *h0r.next.borrow_mut() = Vec::with_capacity(n + CAP);
+        for k in 1..n {
+            let h = mk();
+            Rc::adopt_unchecked(h0r, &h);
+            h0r.next.borrow_mut().push(h);
+            pairs.insert((0, k));
+            adoptions += 1;
+        }
+        return (h0, pairs.len(), adoptions);
+    }
+    if shape == 5 {
+        // object 0 owns n handles to object 1, each adopted; then churn
+        let h0r: &Rc<Big> = &*slot[0];
+        *h0r.next.borrow_mut() = Vec::with_capacity(n + CAP);
+        let b = mk();
+        for _ in 0..n {
+            let cl = Rc::clone(&b);
+            Rc::adopt_unchecked(h0r, &cl);
+            h0r.next.borrow_mut().push(cl);
+            adoptions += 1;
+        }
+        for _ in 0..n {
+            Rc::unadopt(h0r, &b);
+            Rc::adopt_unchecked(h0r, &b);
+        }
+        pairs.insert((0, 1));
+        drop(b);
+        return (h0, 1, adoptions);
+    }
     let edge = |a: usize, b: usize, slot: &Vec<*const Rc<Big>>, pairs: &mut std::collections::HashSet<(usize, usize)>, adoptions: &mut usize| {
         let ha: &Rc<Big> = &*slot[a];
         let hb: &Rc<Big> = &*slot[b];
@@ -166,7 +200,8 @@ pub fn scaleprobe_cmd(args: &[String]) -> i32 {
         drop(*h0);
         let d = DESTROYED.load(Ordering::Relaxed);
         println!("destroyed={} pairs={} adoptions={}", d, pairs, adoptions);
-        if d != n {
+        let expect = if c.shape % 6 == 5 { 2 } else { n };
+        if d != expect {
             return 3;
         }
     } else {
@@ -227,12 +262,12 @@ fn ir_probe(c: &ScaleCase, small: u32, big: u32) -> CaseResult {
     let mut cc = c.clone();
     cc.probe = None;
     let _ = std::fs::write(&f, serde_json::to_string(&cc).unwrap());
-    let run = || -> Result<(u64, u64, u64, u64), String> {
+    let run = || -> Result<(u64, u64, u64, u64, u64, u64), String> {
         let (b0, _) = cachegrind(&f, small, false)?;
         let (b1, a_small) = cachegrind(&f, small, true)?;
         let (c0, _) = cachegrind(&f, big, false)?;
         let (c1, a_big) = cachegrind(&f, big, true)?;
-        Ok((b1.saturating_sub(b0), a_small, c1.saturating_sub(c0), a_big))
+        Ok((b1.saturating_sub(b0), a_small, c1.saturating_sub(c0), a_big, b0, c0))
     };
     let res = run();
     let _ = std::fs::remove_dir_all(&dir);
@@ -242,7 +277,7 @@ fn ir_probe(c: &ScaleCase, small: u32, big: u32) -> CaseResult {
             r.outcome = exec::Outcome::Internal;
             r.msg = format!("instruction probe could not run: {}", e);
         }
-        Ok((ir_small, a_small, ir_big, a_big)) => {
+        Ok((ir_small, a_small, ir_big, a_big, build_small, build_big)) => {
             let size_small = small as u64 + a_small;
             let size_big = big as u64 + a_big;
             let size_ratio = size_big as f64 / size_small as f64;
@@ -255,6 +290,14 @@ fn ir_probe(c: &ScaleCase, small: u32, big: u32) -> CaseResult {
                 "final drop: {} instructions for {} objects+adoptions, {} for {} (instruction ratio {:.2}, size ratio {:.2})",
                 ir_small, size_small, ir_big, size_big, ir_ratio, size_ratio
             );
+            // the same bound for building the shape (adopt / unadopt / clone calls)
+            let build_ratio = build_big as f64 / build_small.max(1) as f64;
+            r.msg = format!("{}; construction: {} vs {} instructions (ratio {:.2})", r.msg, build_small, build_big, build_ratio);
+            if build_ratio > 2.2 * size_ratio {
+                r.outcome = exec::Outcome::Violation;
+                r.view = View::Scale as u32;
+                r.msg = format!("[scale] the cost of building the adoption graph (adopt/unadopt/clone calls) does not grow linearly: {}", r.msg);
+            }
             if ir_ratio > 2.2 * size_ratio {
                 r.outcome = exec::Outcome::Violation;
                 r.view = View::Scale as u32;
@@ -266,6 +309,8 @@ fn ir_probe(c: &ScaleCase, small: u32, big: u32) -> CaseResult {
 }
 
 pub const L_IR: u32 = 6;
+pub const L_HUB: u32 = 7;
+pub const L_CHURN: u32 = 8;
 
 pub struct ScaleKind;
 
@@ -279,7 +324,7 @@ pub const L_HUGE: u32 = 5;
 impl Kind for ScaleKind {
     type Case = ScaleCase;
     fn strategy(_id: &str, _tier: Tier, _variant: u64) -> BoxedStrategy<ScaleCase> {
-        (0u8..4, any::<u16>(), vec((any::<u32>(), any::<u32>()), 0..48), vec(any::<u32>(), 0..16), any::<bool>())
+        (0u8..6, any::<u16>(), vec((any::<u32>(), any::<u32>()), 0..48), vec(any::<u32>(), 0..16), any::<bool>())
             .prop_map(|(shape, size, chords, selfs, parallel)| ScaleCase { shape, size, chords, selfs, parallel, probe: None })
             .boxed()
     }
@@ -321,8 +366,9 @@ impl Kind for ScaleKind {
             sh.counters[24] = cn[1] as u64;
             sh.counters[25] = cn[2] as u64;
             sh.counters[26] = cn[3] as u64;
-            if d != n {
-                violate(View::Scale, &format!("orphaned group of {} objects: only {} were destroyed by the final drop", n, d));
+            let expect = if c.shape % 6 == 5 { 2 } else { n };
+            if d != expect {
+                violate(View::Scale, &format!("orphaned group of {} objects: only {} were destroyed by the final drop", expect, d));
             }
             let (calls, pops, visits, edges) = (cn[0], cn[1], cn[2], cn[3]);
             if visits > 8 * n + 8 {
@@ -344,30 +390,32 @@ impl Kind for ScaleKind {
             if n >= 100_000 {
                 l |= 1 << L_HUGE;
             }
-            l |= 1 << match c.shape % 4 {
+            l |= 1 << match c.shape % 6 {
                 0 => L_RING,
                 1 => L_CHORDS,
                 2 => L_CLIQUE,
-                _ => L_SELF,
+                3 => L_SELF,
+                4 => L_HUB,
+                _ => L_CHURN,
             };
             sh.labels = l;
         });
         // a stack overflow on the small-stack thread cannot run the fault handler
         if r.outcome == exec::Outcome::OtherView || (r.outcome == exec::Outcome::Violation && r.signal != 0) {
             r.outcome = exec::Outcome::Violation;
-            r.msg = format!("{} (N={}, shape {}): the process died during the final drop; stack overflow on the 128 KiB stack is the expected cause", r.msg, n, c.shape % 4);
+            r.msg = format!("{} (N={}, shape {}): the process died during the final drop; stack overflow on the 128 KiB stack is the expected cause", r.msg, n, c.shape % 6);
         }
-        let big = r.labels & (1 << L_BIG) != 0 || (c.shape % 4 == 2 && n >= 40);
+        let big = r.labels & (1 << L_BIG) != 0 || (c.shape % 6 == 2 && n >= 40);
         r.nontrivial = big;
         r
     }
     fn compact(c: &ScaleCase) -> String {
         if let Some((a, b)) = c.probe {
-            return format!("instruction probe shape={} N={} vs N={} chords={} selfs={}", ["ring", "ring+chords", "clique", "ring+self+chords"][(c.shape % 4) as usize], a, b, c.chords.len(), c.selfs.len());
+            return format!("instruction probe shape={} N={} vs N={} chords={} selfs={}", ["ring", "ring+chords", "clique", "ring+self+chords", "hub", "parallel+churn"][(c.shape % 6) as usize], a, b, c.chords.len(), c.selfs.len());
         }
         format!(
             "shape={} size_sel={} (N quick={} thorough={}) chords={} selfs={} parallel={}",
-            ["ring", "ring+chords", "clique", "ring+self+chords"][(c.shape % 4) as usize],
+            ["ring", "ring+chords", "clique", "ring+self+chords", "hub", "parallel+churn"][(c.shape % 6) as usize],
             c.size,
             n_of(c, Tier::Quick),
             n_of(c, Tier::Thorough),
@@ -377,7 +425,7 @@ impl Kind for ScaleKind {
         )
     }
     fn label_names() -> Vec<String> {
-        let mut v: Vec<String> = ["N>=1000", "ring", "ring_with_chords", "clique", "ring_with_self_adoptions", "N>=100000", "instruction_count_probe"].iter().map(|s| s.to_string()).collect();
+        let mut v: Vec<String> = ["N>=1000", "ring", "ring_with_chords", "clique", "ring_with_self_adoptions", "N>=100000", "instruction_count_probe", "hub_zero_count_teardown", "parallel_adoptions_with_churn"].iter().map(|s| s.to_string()).collect();
         while v.len() < 64 {
             v.push(String::new());
         }
